@@ -24,7 +24,11 @@ PROP = {'level': 'proof',
          '{true,false,t,e,T,1,space,e-acute} and every single-byte insertion/replacement/deletion/swap of '
          'true/false/truefalse/falsetrue; then 40 000 (thorough 400 000) seeded random digit strings, '
          "multiples of 2^bits plus a small rest, and mixed-alphabet strings. Strings with a leading '+' are "
-         'emitted out of scope for the whole-string form.',
+         'emitted out of scope for the whole-string form. A second seeded stream of LONG / RARE numerals (~5 '
+         "500 / 55 000 requests, every integer type): digit strings of 1..=45 digits with and without '-', "
+         '0..=30 leading zeros, narrow bands (+-3) around 10^k for k up to 44, bands (+-2 and +-20) around '
+         "MAX/10, MAX/10*10, MIN/10, MIN/10*10, MAX, MIN and the unsigned twin's, each whole and with a "
+         'random suffix (pparse; every 6th pparse_at, every 9th pwith).',
  'explanation': 'Theorems (Props/C12.lean) state model = reference for every byte list and every bit width '
                 '>= 4; the transcript ties the model to the real konst functions (primitive::parse_*, '
                 'Parser::parse_*, StdParser::parse_with, parse_with!) and the reference to the real '
